@@ -106,3 +106,66 @@ Theorem C07_f64_div_mul : forall a b, repr a -> repr b -> val b <> 0 ->
   (val (f64_div a b) * val b) mod M = val a.
 Proof. exact f64_div_mul. Qed.
 Print Assumptions C07_f64_div_mul.
+
+(* ---- round 2: trait defaults of math/src/field/traits.rs instantiated for f64 ---- *)
+From VProofs Require Import F64ExpVartime.
+From VProofs Require FieldRoots FieldBytesSpec.
+From VModel Require Import FieldBytes.
+
+(* exp_vartime: the generic variable-time loop (f64 overrides `exp` with a constant-time one) *)
+Theorem C07_f64_exp_vartime_sound : forall fuel a p r, repr a -> 0 <= p < 2^64 ->
+  f64_exp_vartime fuel a p = Some r -> repr r /\ val r = (val a ^ p) mod M.
+Proof. exact f64_exp_vartime_sound. Qed.
+Print Assumptions C07_f64_exp_vartime_sound.
+
+Theorem C07_f64_exp_vartime_terminates : forall a p, 0 <= p < 2^64 ->
+  exists r, f64_exp_vartime 66 a p = Some r.
+Proof. exact f64_exp_vartime_terminates. Qed.
+Print Assumptions C07_f64_exp_vartime_terminates.
+
+Theorem C07_f64_exp_vartime_agrees : forall fuel a p r, repr a -> 0 <= p < 2^64 ->
+  f64_exp_vartime fuel a p = Some r -> r = f64_exp a p.
+Proof. exact f64_exp_vartime_agrees. Qed.
+Print Assumptions C07_f64_exp_vartime_agrees.
+
+(* get_root_of_unity(n): order exactly 2^n for 1 <= n <= TWO_ADICITY = 32; the asserts (and the
+   shift-amount check) hold exactly for those n *)
+Theorem C07_f64_get_root_of_unity : forall n, 1 <= n <= 32 ->
+  let w := f64_get_root_of_unity n in
+  repr w /\ val w = FieldRoots.R64.g64 ^ 2 ^ (32 - n) mod M /\
+  val w ^ 2 ^ n mod M = 1 /\ val w ^ 2 ^ (n - 1) mod M = M - 1 /\
+  forall k, 0 < k < 2 ^ n -> val w ^ k mod M <> 1.
+Proof. exact FieldRoots.R64.f64_get_root_of_unity_spec. Qed.
+Print Assumptions C07_f64_get_root_of_unity.
+
+Theorem C07_f64_get_root_of_unity_ok : forall n, 0 <= n < 2^32 ->
+  f64_get_root_of_unity_ok n = andb (1 <=? n) (n <=? 32).
+Proof. exact FieldRoots.R64.f64_get_root_of_unity_ok_spec. Qed.
+Print Assumptions C07_f64_get_root_of_unity_ok.
+
+(* from_bytes_with_padding (hand model Model/FieldBytes.v over byte lists): a slice shorter than
+   ELEMENT_BYTES = 8 always converts, to new(little-endian value); the value is below 256^7 <= M so
+   the inner try_from cannot fail; longer slices hit the assert *)
+Theorem C07_f64_from_bytes_with_padding : forall bs, (length bs < 8)%nat -> Forall FieldBytesSpec.byte bs ->
+  f64_from_bytes_with_padding bs = FbOk (f64_new (of_le_bytes bs)) /\
+  0 <= of_le_bytes bs < 256 ^ (8 - 1) /\
+  repr (f64_new (of_le_bytes bs)) /\ val (f64_new (of_le_bytes bs)) = of_le_bytes bs.
+Proof. exact FieldBytesSpec.f64_from_bytes_with_padding_spec. Qed.
+Print Assumptions C07_f64_from_bytes_with_padding.
+
+Theorem C07_f64_from_bytes_with_padding_long : forall bs, (8 <= length bs)%nat ->
+  f64_from_bytes_with_padding bs = FbAssertLen.
+Proof. exact FieldBytesSpec.f64_from_bytes_with_padding_long. Qed.
+Print Assumptions C07_f64_from_bytes_with_padding_long.
+
+Theorem C07_from_bytes_with_padding_never_deser_failed : forall bs, Forall FieldBytesSpec.byte bs ->
+  f64_from_bytes_with_padding bs <> FbDeserFailed /\
+  f62_from_bytes_with_padding bs <> FbDeserFailed /\
+  f128_from_bytes_with_padding bs <> FbDeserFailed.
+Proof. exact FieldBytesSpec.from_bytes_with_padding_never_deser_failed. Qed.
+Print Assumptions C07_from_bytes_with_padding_never_deser_failed.
+
+Theorem C07_moduli_above_padding :
+  256 ^ (8 - 1) <= M /\ 256 ^ (8 - 1) <= F62Ops.M62 /\ 256 ^ (16 - 1) <= F128Limbs.M.
+Proof. exact FieldBytesSpec.moduli_above_padding. Qed.
+Print Assumptions C07_moduli_above_padding.
